@@ -494,7 +494,7 @@ def handle_violations(prop, by_sig, replay_cmd, make_replay_for, classify=None, 
         ok, res = gate(replay_cmd, path, sig, classify, env=env)
         if not ok:
             # try the other candidates before giving up
-            for cand2 in by_sig[sig][1:4]:
+            for cand2 in by_sig[sig][1:16]:
                 path2 = make_replay_for(cand2)
                 if path2 and os.path.exists(path2):
                     ok, res = gate(replay_cmd, path2, sig, classify, env=env)
